@@ -20,9 +20,19 @@ def gen_consist(rng, tier):
     return out
 
 
+def gen_consist_wide(rng, tier):
+    out = []
+    for _ in range(c05.n_programs(tier, quick=36)):
+        ws = c05.pick_wide_workspace(rng)
+        steps = c05.cursor_steps(["define", "refs", "highlight", "hover"], ws, rng)
+        out.append(c05.make_case([(fn, text) for fn, text, _ in ws], steps))
+    return out
+
+
 LEGS = [
     Leg("c12.consist", gen_consist, nontrivial=c05.nontrivial, describe=c05.describe, per_case_s=2.5,
         skip_model=c05.skip_model),
+    c05.wide_leg("c12.wide", "c12.consist", gen_consist_wide, per_case_s=2.5),
 ]
 
 
